@@ -37,7 +37,7 @@ func (c *c19) NumCases(tier string) int {
 	return 480
 }
 func (c *c19) Rule() string {
-	return "one case = one streaming call (Datastore.Subscribe with 1-4 subscriptions and 1-4 ms sample intervals, Server.GetData in all four encodings, Server.WatchDeviations) on a datastore holding 0-120 running leaves, with a scripted client: cancel at send index k, Send error from index k on (all concurrent senders fail), stalled consumer (Send blocks until cancel), slow consumer, cancel between ticks, or data exhausted; the handler must return and the census of goroutines with a data-server frame (runtime.Stack) must be back at its baseline within 10 s; a worker death with a Go panic is a violation. distinct = (rpc, subscriptions/encoding, store size, script); non-trivial = the terminating event happened after at least one message was sent or while several senders were active"
+	return "one case = one streaming call (Datastore.Subscribe with 1-4 subscriptions and 1-4 ms sample intervals, Server.GetData in all four encodings, Server.WatchDeviations) on a datastore holding 0-120 running leaves, with a scripted client: cancel at send index k, Send error from index k on (all concurrent senders fail), stalled consumer (Send blocks until cancel), slow consumer, cancel between ticks, data exhausted, or the cache instance of the datastore deleted while the stream is served; the handler must return and the census of goroutines with a data-server frame (runtime.Stack) must be back at its baseline within 10 s; a worker death with a Go panic is a violation. distinct = (rpc, subscriptions/encoding, store size, script); non-trivial = the terminating event happened after at least one message was sent or while several senders were active"
 }
 func (c *c19) Assumptions() []string {
 	return []string{
@@ -111,7 +111,7 @@ func (c *c19) RunCase(w *core.Worker, idx int, seed uint64, res *core.CaseResult
 	sizes := []int{0, 1, 5, 40, 120}
 	size := sizes[rng.Intn(len(sizes))]
 	c.fill(ds, size)
-	kinds := []string{"cancel-at", "fail-at", "stall-at", "slow", "cancel-later", "exhaust"}
+	kinds := []string{"cancel-at", "fail-at", "stall-at", "slow", "cancel-later", "exhaust", "store-deleted"}
 	sc := script{kind: kinds[rng.Intn(len(kinds))], k: 1 + rng.Intn(2*size+3)}
 	rpc := []string{"subscribe", "getdata", "watchdeviations"}[idx%3]
 	// quiesce, then baseline
@@ -188,6 +188,14 @@ func (c *c19) RunCase(w *core.Worker, idx int, seed uint64, res *core.CaseResult
 				time.Sleep(time.Millisecond)
 				ds.VerifDeviationCycle(ctx, map[string]sdcpb.DataServer_WatchDeviationsServer{"x": st})
 			}
+		}()
+	}
+	if sc.kind == "store-deleted" {
+		// the datastore is deleted (as Server.DeleteDataStore does with its cache instance) while the stream is being
+		// served: reads start to fail; the handler still has to return when the client goes away
+		go func() {
+			time.Sleep(2 * time.Millisecond)
+			c.env.Cache.Delete(ctx, ds.Name)
 		}()
 	}
 	res.Tracef("%s", desc)
